@@ -50,6 +50,8 @@ pub struct Runner {
     pub check_c06: bool,
     /// position each queue incarnation last handed out (C04)
     pub prefix: &'static str,
+    /// ask the model driver to evaluate the journal invariant after every call
+    pub jcheck: bool,
 }
 
 pub fn calibrate_meta(scratch: &std::path::Path) -> usize {
@@ -76,6 +78,7 @@ impl Runner {
             dead: false,
             check_c06: true,
             prefix: "",
+            jcheck: false,
         }
     }
 
@@ -277,7 +280,7 @@ impl Runner {
     }
 
     pub fn case_text(&self, id: &str) -> String {
-        let mut s = format!("case {}\nmeta {}\n", id, self.meta);
+        let mut s = format!("case {}\nmeta {}\n{}", id, self.meta, if self.jcheck { "option jcheck\n" } else { "" });
         for l in &self.annot {
             s.push_str(l);
             s.push('\n');
